@@ -65,6 +65,7 @@ func (c *Collection) Snapshot(dst io.Writer) error {
 
 	// Take a snapshot of the current state
 	defer os.Remove(recorder.Name())
+	defer recorder.Close()
 	verifYield("snapshot:recorder-open", 0)
 	if _, err := c.writeState(s2.NewWriter(dst)); err != nil {
 		return err
@@ -83,6 +84,8 @@ func (c *Collection) recorderOpen() (log *commit.Log, err error) {
 		dst := (*unsafe.Pointer)(unsafe.Pointer(&c.record))
 		ptr := unsafe.Pointer(log)
 		if !atomic.CompareAndSwapPointer(dst, nil, ptr) {
+			log.Close()
+			os.Remove(log.Name())
 			return nil, fmt.Errorf("column: unable to snapshot, another one might be in progress")
 		}
 	}
